@@ -135,6 +135,9 @@ class TokenParser(Parser):
         if not d["type"]:
             d["type"] = "uint32"
 
+        # A multi-word type may be spelled with any amount of whitespace between its words
+        d["type"] = " ".join(d["type"].split())
+
         factory = self.cstruct._make_flag if enumtype == "flag" else self.cstruct._make_enum
 
         enum = factory(d["name"] or "", self.cstruct.resolve(d["type"]), values)
